@@ -68,7 +68,7 @@ class _Namer:
         return f"{self.prefix}{self.i}"
 
 
-def _cond_block(rng, namer, depth, budget, branch_dag=False, blocks=None):
+def _cond_block(rng, namer, depth, budget, branch_dag=False, blocks=None, allow_empty=False):
     """Returns (nodes, entry_name, exit_name). entry is conditional, exit terminal.
     `blocks` collects {cond, terminal, branches:[{entry, exit, nodes}]} for the monitors."""
     c, t = namer() + "c", namer() + "t"
@@ -76,8 +76,16 @@ def _cond_block(rng, namer, depth, budget, branch_dag=False, blocks=None):
     nb = rng.choice([2, 2, 3, 3, 4])
     probs = rng.choice(PROB_SETS[nb])
     nodes, c_children = [], []
+    empty_used = False
     for b in range(nb):
         blen = rng.randint(1, 2)
+        if allow_empty and not empty_used and rng.random() < 0.2:
+            # an EMPTY branch: the conditional is wired straight to its join ("if .. then A else nothing")
+            empty_used = True
+            c_children.append(t)
+            empty_prob = probs[b]
+            blk["branches"].append({"entry": t, "exit": c, "nodes": [], "empty": True})
+            continue
         branch_nodes = []
         first = None
         prev_exit = None
@@ -116,6 +124,8 @@ def _cond_block(rng, namer, depth, budget, branch_dag=False, blocks=None):
         nodes += branch_nodes
     nodes.insert(0, _node(c, c_children, conditional=True))
     nodes.append(_node(t, [], terminal=True))
+    if empty_used:
+        nodes[-1]["probability"] = empty_prob
     if blocks is not None:
         blocks.append(blk)
     return nodes, c, t
@@ -165,7 +175,7 @@ def gen_graph(rng, gname, max_nodes=8, shapes=None, allow_cond=True):
         budget = [max_nodes + (4 if max_nodes > 5 else 0)]
         depth = 1 if shape == "cond_nested" else 0
         nodes, cin, cout = _cond_block(rng, namer, depth, budget, branch_dag=(shape == "cond_dag"),
-                                       blocks=blocks)
+                                       blocks=blocks, allow_empty=(shape == "cond_empty"))
         if rng.random() < 0.6:
             pre = namer()
             nodes.insert(0, _node(pre, [cin]))
@@ -305,7 +315,7 @@ def gen_clockwork_world(seed, index, **over):
                 {"name": "GPU", "quantity": rng.randint(1, 2)},
                 {"name": "RAM", "quantity": rng.randint(3, 8)}]})
         cluster.append({"name": f"Pool_{p}", "workers": workers})
-    nmodels = rng.randint(1, 3)
+    nmodels = rng.randint(1, 3) if not over.get("tied") else rng.randint(2, 3)
     profiles = []
     for m in range(nmodels):
         sizes = rng.choice([[1], [1, 2], [1, 2, 4], [2, 4], [1, 4]])
@@ -319,8 +329,8 @@ def gen_clockwork_world(seed, index, **over):
                                                  "resource_requirements": {"RAM:any": rng.randint(1, 3)}}],
                          "execution_strategies": ex})
     graphs = []
-    for g in range(rng.randint(1, 3)):
-        model = rng.choice(profiles)["name"]
+    for g in range(rng.randint(1, 3) if not over.get("tied") else nmodels):
+        model = rng.choice(profiles)["name"] if not over.get("tied") else profiles[g]["name"]
         if rng.random() < 0.25:
             nodes = [_node("n1", ["n2"], work_profile=model), _node("n2", work_profile=rng.choice(profiles)["name"])]
             shape = "chain"
@@ -343,6 +353,20 @@ def gen_clockwork_world(seed, index, **over):
             gd["invocations"] = inv
         gd["deadline_variance"] = list(rng.choice([(0, 0), (50, 100), (100, 300), (200, 600), (500, 500)]))
         graphs.append(gd)
+    if over.get("tied"):
+        # requests of different models arriving together with equal deadlines: same release pattern, fixed stretch, and
+        # models of equal runtime so that the stretched deadlines coincide
+        for gd in graphs:
+            gd["release_policy"] = "fixed"
+            gd["period"] = graphs[0].get("period", 1) if graphs[0].get("release_policy") == "fixed" else 1
+            gd["invocations"] = graphs[0]["invocations"]
+            gd["start"] = 0
+            gd.pop("rate", None)
+            gd.pop("concurrency", None)
+            gd["deadline_variance"] = [200, 200]
+            gd["graph"] = [_node("n1", work_profile=gd["graph"][0]["work_profile"])]
+        for prof in profiles[1:]:
+            prof["execution_strategies"] = [dict(e) for e in profiles[0]["execution_strategies"]]
     workload = {"graphs": [{k: v for k, v in g.items() if k not in ("shape", "blocks")} for g in graphs],
                 "profiles": profiles}
     flags = {
@@ -492,6 +516,10 @@ def gen_flags(rng, profile, over):
         "workload_update_interval": rng.choice([-1, -1, -1, 5, 50]),
         "log_level": "warning",
     }
+    # per-stage deadlines: the tasks of one graph then carry different deadlines (the default gives every task the
+    # graph's).  Drawn from a separate stream so that the other dimensions of earlier worlds are unchanged.
+    if random.Random(f["random_seed"]).random() < over.get("p_decompose", 0.15) and not over.get("zero_runtime"):
+        f["decompose_deadlines"] = True
     if sched in ("LSF",):
         f["enforce_deadlines"] = f["enforce_deadlines"]  # flag accepted, ignored by LSF
     if sched in PLANNERS:
